@@ -36,17 +36,31 @@ def stub_eigs(V, w, log):
         V.check('eigs-asked-for-one-state', kwargs.get('k', 1) == 1)
         interp.call(f, (A,), {})                         # at least one application of the effective Hamiltonian
         log.append(('eigs', A.role))
-        out = GT(w, 1.0, (w.atom('psi'),), A.role, ndim=A._ndim)
+        a = w.atom('psi')
+        w.norms[(a,)] = 1.0                              # eigs' contract: Ritz vectors are normalised
+        out = GT(w, 1.0, (a,), A.role, ndim=A._ndim)
         return (sym.opaque_real('val'),), (out,)
     return eigs
 
 
-def h_dmrg_sweep(V, method, N, nsweeps, schmidt):
+def h_dmrg_sweep(V, method, N, nsweeps, schmidt, binding=False, initial_factor=False):
     from yastn.tn.mps import _dmrg
     from yastn.tn.mps._env import EnvParent
     if not V.symbolic:
         return
-    w, psi, log = setup_sweep(V, N)
+    f0 = 1.0
+    if initial_factor:
+        f0 = V.real('initial_factor')                    # a canonical initial state may carry any norm factor (e.g. 3 * psi)
+        V.assume(f0 > 0)
+    w, psi, log = setup_sweep(V, N, binding=binding, factor=f0)
+    if binding:
+        # contract of truncation_mask (C13): the largest singular value is always kept
+        kept0 = w.world_kept
+        def kept_positive(m):
+            k = kept0(m)
+            V.assume(k > 0)
+            return k
+        w.world_kept = kept_positive
     V.stub('yastn.krylov._krylov:eigs', stub_eigs(V, w, log))
     V.stub('yastn.tensor.linalg:svd_with_truncation', None) if False else None
     # environment as _dmrg_ prepares it: state canonical towards first, right environments set up
@@ -68,7 +82,10 @@ def h_dmrg_sweep(V, method, N, nsweeps, schmidt):
             V.check('every-bond-optimised-once-per-half-sweep-in-order', acts == want)
             V.check('reports-largest-discarded-weight', r >= 0)
         V.check('sweep-ends-without-central-block', psi.pC is None and sorted(psi.A) == list(range(N)))
-        V.check('sweep-ends-canonical-towards-first', all(psi.A[k].iso == 'R' or k == 0 for k in range(N)) if method == '1site' else True)
+        V.check('sweep-ends-canonical-towards-first', all(psi.A[k].iso == 'R' or k == 0 for k in range(N)))
+        # "dmrg_ returns a normalised ... MPS": with sites 1..N-1 right-isometric the norm of the state is factor * |A[0]|
+        V.check('sweep-ends-with-unit-norm-factor', psi.factor == 1)
+        V.check('sweep-ends-with-a-normalised-first-site', psi.A[0].norm() == 1)
         # the energy reported after the sweep is measured with fresh environments of the returned state
         e = V.call(env.measure)
     if schmidt:
@@ -148,7 +165,7 @@ def h_dmrg_args(V):
 
 
 import contracts.mps_values as MV
-from contracts.mps_values import h_pbc_values, h_mpo_mpo_values, h_complex_values, h_reverse_values, h_env3_refresh, h_overlap_values, h_mpo_values, h_env3_values, h_env_sum_project_values, h_measure_values, h_project_values
+from contracts.mps_values import h_pbc_values, h_mpo_mpo_values, h_complex_values, h_reverse_values, h_env3_refresh, h_overlap_values, h_mpo_values, h_env3_values, h_env_sum_project_values, h_measure_values, h_project_values, h_penalty_values
 FUNCTIONS = list(FUNCTIONS) + [f_ for f_ in MV.FUNCTIONS if f_ not in FUNCTIONS]
 import contracts.alg_bounded as AB
 from contracts.alg_bounded import h_dmrg_numeric
@@ -162,6 +179,12 @@ def units(tier):
         for N in range(2, (8 if th else 5) + 1):
             for schmidt in (False, True):
                 U.append(('h_dmrg_sweep', f"{method},N={N},Schmidt={schmidt}", dict(method=method, N=N, nsweeps=2, schmidt=schmidt)))
+            if N <= 4:
+                for binding, fac in ((True, False), (False, True), (True, True)):
+                    if binding and method == '1site':
+                        continue
+                    U.append(('h_dmrg_sweep', f"{method},N={N},Schmidt=False,truncation-binds={binding},initial-norm-factor={fac}",
+                              dict(method=method, N=N, nsweeps=2, schmidt=False, binding=binding, initial_factor=fac)))
         for N in (2, 3):
             for max_sweeps in (1, 2, 3):
                 for with_tol in (False, True):
